@@ -18,6 +18,16 @@ variable {F : Type}
 
 /-! ### the generated code is the hand model (translator tie) -/
 
+/-- Normalisation of the regenerated integer code: every wrap-around / checked operation is
+replaced by the plain operation on ℕ, its side condition (no wrap, no overflow, divisor ≠ 0)
+discharged by `omega` from the bounds in the context.  Written to survive behaviour-preserving
+rewrites of the source (other operation order, `(n − 1) / q + 1` for the ceiling division,
+`n − n % q` for the rounding). -/
+macro "cxx_norm" : tactic => `(tactic|
+  simp (disch := omega) only [u64OfInt_zero, u64OfInt_one, u64OfInt_natCast, U64.add_small,
+    U64.sub_small, U64.mul_small, U64.div_pos, U64.mod_pos, Option.bind_eq_bind, Option.bind_some,
+    Option.pure_def, Bool.false_eq_true, if_false, if_true])
+
 theorem gen_qn (ops : FloatOps F) (rate : F) (r : Nat)
     (hr : ops.toI64 rate = some (r : Int)) (hr2 : r ≤ 2147483648) :
     Gen.TrackUtils.waveform_quantisation_number ops rate = some ((qn r : Nat) : Int) := by
@@ -26,7 +36,11 @@ theorem gen_qn (ops : FloatOps F) (rate : F) (r : Nat)
     I64.div_natCast r 210 (by omega) (by omega)
   have e2 : I64.mul ((r / 210 : Nat) : Int) (2 : Int) = some ((r / 210 * 2 : Nat) : Int) :=
     I64.mul_natCast (r / 210) 2 (by omega)
-  simp only [hr, Option.bind_eq_bind, Option.bind_some, e1, e2, qn]
+  have e2' : I64.mul (2 : Int) ((r / 210 : Nat) : Int) = some ((r / 210 * 2 : Nat) : Int) := by
+    have := I64.mul_natCast 2 (r / 210) (by omega)
+    rw [Nat.mul_comm 2] at this
+    exact this
+  simp only [hr, Option.bind_eq_bind, Option.bind_some, e1, e2, e2', qn, Option.pure_def]
 
 theorem cond_true (n r : Nat) (h0 : n = 0 ∨ qn r = 0) :
     (decide (n = 0) || decide (((qn r : Nat) : Int) = 0)) = true := by
@@ -52,11 +66,17 @@ theorem C19_gen_hi (ops : FloatOps F) (rate : F) (r n : Nat)
     rfl
   · have hn0 : n ≠ 0 := fun h => h0 (Or.inl h)
     have hq0 : qn r ≠ 0 := fun h => h0 (Or.inr h)
-    simp only [u64OfInt_zero, cond_false n r h0, Bool.false_eq_true, if_false, u64OfInt_one,
-      u64OfInt_natCast (qn r) (by omega), U64.add_small n (qn r) (by omega),
-      U64.sub_small (n + qn r) 1 (by omega) (by omega), U64.div_pos _ _ hq0,
-      Option.bind_some, hiSize, hiSpan, h0]
-    rfl
+    -- bounds on the intermediate values a rewriting of the ceiling division may form
+    have b1 : (n - 1) / qn r ≤ n - 1 := Nat.div_le_self _ _
+    have b2 : (n + qn r - 1) / qn r ≤ n + qn r - 1 := Nat.div_le_self _ _
+    have b3 : n / qn r ≤ n := Nat.div_le_self _ _
+    have hc := ceil_div_alt n (qn r) (by omega) (by omega)
+    simp only [u64OfInt_zero, cond_false n r h0, Bool.false_eq_true, if_false]
+    cxx_norm
+    simp only [hiSize, hiSpan, h0, if_false] <;>
+    first
+      | rfl
+      | (rw [hc])
 
 theorem C19_gen_ov (ops : FloatOps F) (rate : F) (r n : Nat)
     (hr : ops.toI64 rate = some (r : Int)) (hr2 : r ≤ 2147483648) (hn : n ≤ 4611686018427387904) :
@@ -71,12 +91,16 @@ theorem C19_gen_ov (ops : FloatOps F) (rate : F) (r n : Nat)
     rfl
   · have hn0 : n ≠ 0 := fun h => h0 (Or.inl h)
     have hq0 : qn r ≠ 0 := fun h => h0 (Or.inr h)
-    have hle : n / qn r * qn r ≤ n := Nat.div_mul_le_self _ _
-    simp only [u64OfInt_zero, cond_false n r h0, Bool.false_eq_true, if_false,
-      u64OfInt_natCast (qn r) (by omega), U64.div_pos _ _ hq0,
-      U64.mul_small (n / qn r) (qn r) (by omega),
-      Option.bind_some, ovSize, ovRounded, h0]
-    rfl
+    have b1 : n / qn r * qn r ≤ n := Nat.div_mul_le_self _ _
+    have b2 : n % qn r ≤ n := Nat.mod_le _ _
+    have b3 : n / qn r ≤ n := Nat.div_le_self _ _
+    have hc := round_down_alt n (qn r)
+    simp only [u64OfInt_zero, cond_false n r h0, Bool.false_eq_true, if_false]
+    cxx_norm
+    simp only [ovSize, ovRounded, h0, if_false] <;>
+    first
+      | rfl
+      | (rw [hc])
 
 /-! ### the property, on the hand model (all `n`, all `r`) -/
 
